@@ -427,7 +427,7 @@ func init() {
 		Shards: shards(8, 16),
 		Meta: func(tier string) rt.Meta {
 			return rt.Meta{Level: "fault_enumeration", MinEvals: 2000, MinDistinct: 30, Exhaustive: true,
-				Rule:        "per history of 12-25 calls over all VFS and File methods on a random tree (MemFS, OrefaFS bases): (a) always-OK function: results and base snapshot equal to a twin base driven directly, and every direct primitive consults the callback with its own FnVFS id, every successful composite (Create, WriteFile, ReadFile, ReadDir, MkdirTemp) shows the primitives it is built on; (b) EVERY single-fault plan 'fail the k-th consultation' (exhaustive per history): the enclosing call must return an error - exactly the injected value for a direct primitive, none for Glob - and the base snapshot taken inside the callback at the moment of injection must equal the snapshot when the call returns; (c) 'fail every consultation of F' for every F seen: every call of that kind, including calls on files and sub file systems handed out by the FailFS, must return the injected error and leave the base untouched; (d) ReadOnlyFunc: the base (incl. mtimes) never changes. The class of the injected error varies with the plan (opaque, not-exist, permission, exist). In one history in three the acting identity is changed on the way (SetUser with made-up identities, twice under one name with other ids); the monitor's snapshots are taken as the administrator. Signature = plan kind | base fs | call kind | injected primitive | outcome; all non-trivial.",
+				Rule:        "per history of 12-25 calls over all VFS and File methods on a random tree (MemFS, OrefaFS bases): (a) always-OK function: results and base snapshot equal to a twin base driven directly, and every direct primitive consults the callback with its own FnVFS id, every successful composite (Create, WriteFile, ReadFile, ReadDir, MkdirTemp) shows the primitives it is built on; (b) EVERY single-fault plan 'fail the k-th consultation' (exhaustive per history): the enclosing call must return an error - exactly the injected value for a direct primitive, none for Glob - and the base snapshot taken inside the callback at the moment of injection must equal the snapshot when the call returns; (c) 'fail every consultation of F' for every F seen: every call of that kind, including calls on files and sub file systems handed out by the FailFS, must return the injected error and leave the base untouched; (d) ReadOnlyFunc: the base (incl. mtimes) never changes. The class of the injected error varies with the plan (opaque, not-exist, permission, exist). In one history in three the acting identity is changed on the way (SetUser with made-up identities, twice under one name with other ids); the monitor's snapshots are taken as the administrator. In half of the histories the read-only plan is driven through a second FailFS stacked on the first. Signature = plan kind | base fs | call kind | injected primitive | outcome; all non-trivial.",
 				Assumptions: []string{"a single exist-class fault inside CreateTemp/MkdirTemp is absorbed by their documented retry (counted, not judged); persistent exist-class faults are C07's business"}}
 		},
 		Run: func(c *rt.Ctx) {
